@@ -22,7 +22,7 @@ def vu(x, unit):
 
 def gen_case(rng):
     shape = rng.choice(["generic", "generic", "generic", "single", "only_hot", "only_cold", "isothermal", "zero_dt", "dup_names", "unused_utils", "vu",
-                        "root_only_tree", "zero_duty"])
+                        "root_only_tree", "zero_duty", "glide_ladder", "glide_ladder", "near_tol"])
     labels = rng.choice([["A"], ["A", "B"], ["A/X", "A/Y", "B"], ["A/X/U", "A/X/V", "A/Y", "B"], ["/", "A"], ["A/", "/A"]])
     pr = P.gen_problem(rng, labels=labels, with_tree=(rng.random() < 0.2), util_kind=rng.choice(["none", "ladder", "outside", "mixed"]))
     ss = pr["streams"]
@@ -68,6 +68,22 @@ def gen_case(rng):
                 s["heat_flow"] = 0.0
         if all(s["heat_flow"] == 0.0 for s in ss):
             ss[0]["heat_flow"] = 500.0
+    elif shape == "glide_ladder":
+        # two utilities of one kind both carrying load in a zone, the colder one gliding and limited by its return
+        # temperature (hot oil / district heating behind steam / cooling water), on a site of several zones
+        from . import c09, c12
+        g = c09.gen_glide_site(rng) if rng.random() < 0.5 else c12.gen_cold_glide(rng)
+        if len({s["zone"] for s in g["streams"]}) < 2:
+            g["streams"] += [dict(s, name=s["name"] + "b", zone="Z2") for s in g["streams"][:2]]
+        pr["streams"], pr["utilities"] = g["streams"], g["utilities"]
+        pr.pop("zone_tree", None)
+        ss = pr["streams"]
+    elif shape == "near_tol":
+        # two stream temperatures that differ by about the tolerance (measured data, unit conversions)
+        k = rng.randrange(len(ss))
+        ss[k]["t_supply"] = ss[(k + 1) % len(ss)]["t_supply"] + rng.choice([8e-7, 1e-6, 1.2e-6, 3e-6, -1e-6])
+        if ss[k]["t_supply"] == ss[k]["t_target"]:
+            ss[k]["t_target"] += 10.0
     elif shape == "vu":
         for s in pr["streams"]:
             s["t_supply"] = vu(s["t_supply"], "degC"); s["t_target"] = vu(s["t_target"], "degC")
@@ -113,6 +129,20 @@ def cold_sign_applies(pr):
         if not reach and thinks:
             return True
     return False
+
+
+def near_tol_bounds(pr):
+    """Known defect family C01-sub-window: two DISTINCT shifted stream / utility bounds closer than the activity window
+    (10 x tol = 1e-5 K) - the grid keeps both rows and the site stage refuses an interval narrower than tol."""
+    b = set()
+    for x in pr["streams"] + pr["utilities"]:
+        d = float(val(x.get("dt_cont", 0.0)) or 0.0)
+        ts, tt = float(val(x["t_supply"])), float(val(x["t_target"]) if val(x["t_target"]) is not None else val(x["t_supply"]))
+        hot = ts > tt or (ts == tt and float(val(x.get("heat_flow", 0.0)) or 0.0) < 0) or x.get("type") == "Hot"
+        for t in (ts, tt):
+            b.add(round(t - d if hot else t + d, 9)); b.add(round(t, 9))
+    v = sorted(b)
+    return any(0 < q - p < 1e-5 for p, q in zip(v, v[1:]))
 
 
 def val(x):
@@ -163,6 +193,9 @@ def service_oracle(case):
             cause = "area_zero_driving_force"
         if opts.get("DO_AREA_TARGETING") and isinstance(e, ValueError) and "composite curves to be balanced" in str(e) and cold_sign_applies(pr):
             cause = "cold_sufficiency_sign"
+        if isinstance(e, ValueError) and near_tol_bounds(pr) and ("Infeasible temperature interval" in str(e)
+                                                                    or "composite curves to be balanced" in str(e)):
+            cause = "sub_window_geometry"
         fails.append(("service_total", f"raised {type(e).__name__}: {str(e)[:120]} at {where} (shape {case.get('shape')}, options {opts})", cause))
         return fails, None
     cause_hp = None
